@@ -11,8 +11,8 @@ wire, and the decoder's output is canonical. The proof also fixes how values mus
 struct does **not** round-trip field by field (a `Value` left behind under `Null` or `Set = false` is
 reset), so the harness compares canonical states, never `reflect.DeepEqual`.
 Proved too, on the model `JCodec` of the struct / array / wrapper codec the templates render for the fragment
-*integers, strings, booleans, arrays with possibly nullable items, objects with named properties, each
-required or optional, nullable or not* (over JSON syntax trees, unique member names): every value of a type
+*integers (integer literals within 64 bits), strings, booleans, arrays with possibly nullable items, objects
+(open or closed) with named properties, each required or optional, nullable or not* (over JSON syntax trees, unique member names): every value of a type
 comes back from its own encoding (`codec_round_trip`), the encoding is admitted by the schema
 (`codec_output_valid`), the decoder accepts exactly the documents the schema admits
 (`codec_accepts_iff_valid`), builds only values of the type (`codec_decodes_only_values`) and is canonical
